@@ -477,10 +477,12 @@ def big_plan(ctx):
     """(sub, datasim args) of the big-collection class. Every case set runs on mem, pebble AND rocksdb (two of the
     removal paths differ per engine: DeleteRange, IgnoreRangeDeletions); the model runs once per case set."""
     if ctx.tier == "quick":
-        return [("big-hsl", "-big 4999,5000,5001 -types hsl -policy local"),
+        return [("biglist", "-biglist -policy mix"),
+                ("big-hsl", "-big 4999,5000,5001 -types hsl -policy local"),
                 ("big-z1", "-big 5001 -types z -policy local"),
                 ("big-z0", "-big 4999,5000 -types z -policy local -bigfirst")]
-    return [("big-h", "-big 4999,5000,5001 -types h -policy mix"),
+    return [("biglist", "-biglist -policy mix"),
+            ("big-h", "-big 4999,5000,5001 -types h -policy mix"),
             ("big-s", "-big 4999,5000,5001 -types s -policy mix"),
             ("big-l", "-big 4999,5000,5001,10001 -types l -policy mix"),
             ("big-z-local-a", "-big 4999,5000 -types z -policy local"),
@@ -609,7 +611,7 @@ def shrunk_case(ctx, r, cid, oracle):
     """the sequence up to cid, shrunk while oracle still fails; returns the case lines"""
     seq = cid.split(".")[0]
     lines = seq_lines(r["order"], r["cases"], seq, upto=cid)
-    if seq.startswith("b") or seq.startswith("s"):
+    if seq.startswith("b") or seq.startswith("s") or seq.startswith("l"):
         # big-collection sequences: a handful of lines, the commands carry thousands of members; keep them as they are
         return [l if len(l) < 4000 else l[:4000] + "...(%d characters)" % len(l) for l in lines]
     try:
